@@ -31,7 +31,7 @@ CT = 'commands::test'
 EC = 'rules::eval_context'
 
 UNITS = {
-    'U-join-probe': dict(functions='probe', cls='probe', quick=reg('rules::functions::strings', ['k_join_011', 'k_join_111']), thorough=[], assumptions=[], timeout=900, mem_gb=10),
+    'U-join-probe': dict(functions='probe', cls='probe', quick=reg('rules::functions::strings', ['k_join_011', 'k_join_111']) + reg('rules::eval', ['k_cnf_3_1s']), thorough=[], assumptions=[], timeout=900, mem_gb=10),
     'U-unary-special': dict(functions='eval::unary_operation, result-set branch (`%v empty` / filter emptiness); record_unary_clause stubbed (not on this path)',
                             cls='bounded (one value of kind Int / Null / UnResolved, empty selection); complete in operator-not x prefix-not',
                             quick=reg('rules::eval', ['k_unsp_empty_int', 'k_unsp_empty_unres', 'k_unsp_empty_nosel', 'k_unsp_empty_null']), thorough=[],
@@ -78,9 +78,9 @@ UNITS = {
     'U-join': dict(functions='functions::strings::join', cls='bounded (empty selection; non-string member; unresolved member) -- every concatenation harness exceeded 8 GB and is NOT registered: the element/delimiter order of join is not decided',
                    quick=reg(FS, ['k_join_edge']), thorough=[], assumptions=STUBS, timeout=600),
     'U-cnf': dict(functions='eval::eval_conjunction_clauses (real generic code, T = forced leaf)',
-                  cls='bounded (all shapes of 1 line x <= 3 alternatives and 2 lines x <= 2 alternatives quick; 2 x <= 3 and 3 x <= 2 thorough; every leaf in PASS/FAIL/SKIP/Err)',
+                  cls='bounded (all shapes of 1 line x <= 3 alternatives and 2 lines x <= 2 alternatives quick; 2 x <= 3 and 3 x 1 thorough; every leaf in PASS/FAIL/SKIP/Err)',
                   quick=reg(EV, ['k_cnf_0', 'k_cnf_1_1', 'k_cnf_1_2', 'k_cnf_1_3', 'k_cnf_2_1q', 'k_cnf_2_2q']),
-                  thorough=reg(EV, ['k_cnf_2_1', 'k_cnf_2_2', 'k_cnf_2_3', 'k_cnf_3_1', 'k_cnf_3_2']),
+                  thorough=reg(EV, ['k_cnf_2_1', 'k_cnf_2_2', 'k_cnf_2_3', 'k_cnf_3_1s']),
                   assumptions=[STUBS[0], 'leaf evaluators are pure status sources (their own records are their business: clause_post)'], timeout=900, mem_gb=8),
     'U-cmp-int': dict(functions='path_value::compare_values/compare_eq/compare_lt/le/gt/ge on Int', cls='complete (all i64 x i64)',
                       quick=reg(PV, ['k_cmp_int']), thorough=[], assumptions=STUBS, timeout=300),
